@@ -307,6 +307,8 @@ def run(ctx):
             a, b = b, a
             kind = {"lt": "le", "le": "lt"}[kind]
         # now: rejects iff  a (kind) b ; expected  growth < minimum
+        a_raw = a
+        a, b = common.inline_helpers(P, a), common.inline_helpers(P, b)      # `received_since(cur, prev)?` is its checked_sub
         subs = [x for x in common.walk(a) if x[0] == "call" and isinstance(x[3], str) and generic_path(x[3]).endswith("Uint128::checked_sub")]
         ar, br = set(ctx.roots(a)), set(ctx.roots(b))
         if len(subs) != 1 or len(ar) != 1 or not list(ar)[0].startswith("C:cosmwasm_std::Uint128::checked_sub@"):
@@ -330,8 +332,19 @@ def run(ctx):
             r4.fail("C11.R4:operands", h.path, where, "compares %s with %s: expected (balance - prev_balance) < minimum with two distinct parameters" % (sorted(ar), sorted(br)))
         else:
             prev_p, min_p = int(pm.group(1)), int(mm.group(1))
-            pg = common.propagated(P, h, sub[2])
-            if pg is None or not common.fail_edge_only_errors(P, h, pg[2])[0]:
+            sub_ok = True
+            if str(sub[1]) == h.path:
+                pg = common.propagated(P, h, sub[2])
+                sub_ok = pg is not None and common.fail_edge_only_errors(P, h, pg[2])[0]
+            else:
+                # the subtraction lives in a helper: its error must leave the helper and the helper's error the handler
+                hf_ = P.fn(str(sub[1]))
+                pg = common.propagated(P, hf_, sub[2]) if hf_ is not None else None
+                sub_ok = pg is not None and common.fail_edge_only_errors(P, hf_, pg[2])[0]
+                hc_ = [x for x in common.walk(a_raw) if x[0] == "call" and isinstance(x[3], str) and generic_path(x[3]) == str(sub[1]) and str(x[1]) == h.path]
+                pg2 = common.propagated(P, h, hc_[0][2]) if len(hc_) == 1 else None
+                sub_ok = sub_ok and pg2 is not None and common.fail_edge_only_errors(P, h, pg2[2])[0]
+            if not sub_ok:
                 r4.fail("C11.R4:sub-unchecked", h.path, where, "the balance difference can underflow silently (checked_sub error not turned into a failure)")
             pe = g.edge(not err_true)
             for (b2, i2, cls, v2) in common.ok_exit_blocks(P, h):
